@@ -105,8 +105,17 @@ def coq_project():
 
 
 def coq_make(targets, timeout=1500, jobs=16):
-    coq_project()
-    return sh(["make", "-j%d" % jobs] + targets, timeout, cwd=COQ)
+    """make through the project Makefile; serialised by a file lock (concurrent
+    makes in one tree corrupt .Makefile.d)"""
+    import fcntl
+    os.makedirs(TARGET, exist_ok=True)
+    with open(os.path.join(TARGET, "coq_make.lock"), "w") as lk:
+        fcntl.flock(lk, fcntl.LOCK_EX)
+        try:
+            coq_project()
+            return sh(["make", "-j%d" % jobs] + targets, timeout, cwd=COQ)
+        finally:
+            fcntl.flock(lk, fcntl.LOCK_UN)
 
 
 def coq_prop(prop_file, timeout=1500):
@@ -232,21 +241,51 @@ Extraction "models.ml" Run%(UP)s.run_%(name)s.
 # ---------------------------------------------------------------------------
 # Rust side
 
+def _alt_harness(package):
+    """VERIF_REPO points at another checkout (dev use: seeded changes in a scratch
+    worktree while /repo is busy): build a copy of the harness whose path
+    dependencies point there, in its own target directory"""
+    import shutil
+    base = os.path.join(TARGET, "alt_harness")
+    for pkg in ("common", package):
+        src = os.path.join(ROOT, "harness", pkg)
+        dst = os.path.join(base, pkg)
+        os.makedirs(dst, exist_ok=True)
+        for root, dirs, files in os.walk(src):
+            dirs[:] = [d for d in dirs if d != "target"]
+            rel = os.path.relpath(root, src)
+            os.makedirs(os.path.join(dst, rel), exist_ok=True)
+            for f in files:
+                if f == "Cargo.lock":
+                    continue
+                data = open(os.path.join(root, f), "rb").read()
+                if f == "Cargo.toml":
+                    data = data.replace(b'"/repo/', ('"%s/' % REPO.rstrip("/")).encode())
+                out = os.path.join(dst, rel, f)
+                if not os.path.exists(out) or open(out, "rb").read() != data:
+                    open(out, "wb").write(data)
+    return os.path.join(base, package)
+
+
 def build_harness(bin_name, package, timeout=1700, release=False, extra_rustflags="", features=None):
     """cargo build of one harness binary (harness/<package>) against /repo's working tree"""
-    hdir = os.path.join(ROOT, "harness", package)
+    alt = REPO.rstrip("/") != "/repo"
+    hdir = _alt_harness(package) if alt else os.path.join(ROOT, "harness", package)
+    tdir = os.path.join(TARGET, "alt") if alt else TARGET
     lock = os.path.join(hdir, "Cargo.lock")
     if not os.path.exists(lock):
         import shutil
-        shutil.copy(os.path.join(REPO, "Cargo.lock"), lock)
+        src = os.path.join(REPO, "Cargo.lock")
+        shutil.copy(src if os.path.exists(src) else "/repo/Cargo.lock", lock)
     cmd = ["cargo", "build", "--offline", "-q", "--bin", bin_name]
     if features:
         cmd += ["--features", ",".join(features)]
     if release:
         cmd += ["--release"]
-    env = {"RUSTFLAGS": ("--cfg %s -Awarnings %s" % (GUARD, extra_rustflags)).strip()}
+    env = {"RUSTFLAGS": ("--cfg %s -Awarnings %s" % (GUARD, extra_rustflags)).strip(),
+           "CARGO_TARGET_DIR": tdir}
     rc, out = sh(cmd, timeout, cwd=hdir, env=env)
-    exe = os.path.join(TARGET, "release" if release else "debug", bin_name)
+    exe = os.path.join(tdir, "release" if release else "debug", bin_name)
     return rc == 0 and os.path.exists(exe), out, exe
 
 
